@@ -1,5 +1,5 @@
 """C01 -- the best alignment is a partition of the continuum's units (and the computation returns)."""
-from symx.core import Obl
+from symx.core import Obl, mval
 from . import common, pipeline
 
 META = dict(
@@ -52,6 +52,8 @@ def configs(tier):
         for warm in ("remove", "add-remove"):
             out.append(dict(key=f"best,after-earlier-computation-and-{warm},sizes={s}", sizes=list(s), dissim="abstract", backend="cbc", mode="best", warm=warm,
                             cost=len(common.all_tuples(s)) ** 2))
+    # whatever continuum the public API lets one build: zero-length units are offered to add() (and must be refused) before the alignment
+    out.append(dict(key="positional,sizes=(1, 1),labels=none,zero-length-units-offered", sizes=[1, 1], dissim="positional", labels="none", backend="cbc", offer_zero=True, cost=60))
     # IEEE mode (symx.fp; harness shared with C07): after rounding too, the tuple leaving one unit alone is always a candidate, i.e. the
     # integer program handed to the solver always has a feasible point (pairs concrete and far apart: delta_empty is the symbol)
     for s in [(1, 1, 1)] + ([(1, 1, 1, 1)] if tier == "thorough" else []):
@@ -77,7 +79,28 @@ def harness(cfg, ns):
     def h(ctx):
         E = pipeline.setup(ns, ctx, cfg)
         rz = ctx.notes["realize"]
-        A = pipeline.run_alignment(ns, E, "best")
+        if cfg.get("offer_zero"):
+            from symx import core as _core
+            z0, z1 = ctx.fresh("z0"), ctx.fresh("z1")
+            rz0 = rz
+
+            def rz(m, _rz0=rz0):
+                cse = _rz0(m)
+                cse["offer_zero"] = [common.frs(mval(m, z0)), common.frs(mval(m, z1))]
+                return cse
+            ctx.notes["realize"] = rz
+            for a, z in ((0, z0), (1, z1)):
+                try:
+                    E["c"].add(common.ANN[a], ns.Segment(z, z), None)      # start == end: not a unit
+                except ValueError:
+                    pass
+            _core.DIV_CHECK[0] = True
+            try:
+                A = pipeline.run_alignment(ns, E, "best")
+            finally:
+                _core.DIV_CHECK[0] = False
+        else:
+            A = pipeline.run_alignment(ns, E, "best")
         obls, _ = pipeline.structure_obls(E, A, False, rz)
         probs = E["state"].problems
         want = "CBC" if cfg["backend"] == "cbc" else "GLPK_MI"
@@ -115,6 +138,12 @@ def _crowded():
 
 
 def replay(case):
+    if "mip-variable-declared-boolean" in str(case.get("_obligation", "")):
+        # a relaxed variable shows where the LP relaxation is fractional: odd cycles among three annotators (both modes, both back-ends)
+        r = pipeline.real_medium_check(dict(cases=pipeline.odd_cycle_cases()), mode="soft", backends=("cbc", "glpk_import"))
+        if not r.get("reproduced"):
+            r = pipeline.real_medium_check(dict(cases=pipeline.odd_cycle_cases() + pipeline.dense_cases(40)), mode="best", backends=("cbc", "glpk_import"))
+        return r
     if case.get("kind") == "crowded":
         return _crowded()
     if case.get("kind") == "ieee-kernel":
